@@ -70,6 +70,26 @@ def _known_functions():
     return _KNOWN_FUNCS
 
 
+_KNOWN_PARAMS = None
+
+
+def new_parameters(func):
+    """Parameters of func that did not exist when the checks were last validated (an injectable constant added with the old value
+    as its default): callers of the existing API cannot pass them, so every analysis binds them to their default."""
+    global _KNOWN_PARAMS
+    if _KNOWN_PARAMS is None:
+        import json, os
+        try:
+            with open(os.path.join(os.path.dirname(os.path.abspath(__file__)), "floors.json")) as f:
+                _KNOWN_PARAMS = json.load(f).get("known_params", {})
+        except (FileNotFoundError, ValueError):
+            _KNOWN_PARAMS = {}
+    old = _KNOWN_PARAMS.get(func.module.name + ":" + func.qualname)
+    if old is None:
+        return []
+    return [p for p in list(func.params) + list(func.kwonly) if p not in old and p in func.defaults]
+
+
 def is_new_function(func) -> bool:
     """func did not exist when the checks were last validated (an extracted helper): it is always inlined and, for every rule
     that asks 'who makes this call', it counts as part of its caller."""
